@@ -472,6 +472,38 @@ def check_instance_state(ctx):
     ctx.need(bad == {'bad'}, f'self-test of the instance-state rule failed ({sorted(bad)})')
 
 
+def check_planner_reuse(ctx, rule='C20.planner-reuse'):
+    """A QueryPlanner object plans many statements (the prepared-statement path calls from_query once per statement): whatever a planning method stores in the
+    planner while it plans one statement must be reset by the entry point before the next - otherwise a later plan reads results of an earlier one.  Every
+    attribute of `self` that a method other than __init__ writes is assigned a fresh value at the top of from_query (before anything is planned)."""
+    QP = 'mindsdb_sql/planner/query_planner.py'
+    tree = ctx.src.tree(QP)
+    cls = next((x for x in tree.body if isinstance(x, ast.ClassDef) and x.name == 'QueryPlanner'), None)
+    ctx.need(cls is not None, 'QueryPlanner not found')
+    entry = next((m for m in cls.body if isinstance(m, ast.FunctionDef) and m.name == 'from_query'), None)
+    ctx.need(entry is not None, 'QueryPlanner.from_query not found')
+    resets = set()
+    for st in entry.body:
+        if isinstance(st, (ast.If, ast.For, ast.While, ast.Try, ast.With, ast.Return)):
+            break
+        if isinstance(st, ast.Assign):
+            for tg in st.targets:
+                if isinstance(tg, ast.Attribute) and isinstance(tg.value, ast.Name) and tg.value.id == 'self' and not any(
+                        isinstance(x, ast.Attribute) and isinstance(x.value, ast.Name) and x.value.id == 'self' and x.attr == tg.attr for x in ast.walk(st.value)):
+                    resets.add(tg.attr)
+    n = 0
+    for m, node, a, what in instance_state_writes(cls):
+        n += 1
+        ctx.ob(rule, f'QueryPlanner.{m.name}:self.{a}', a in resets,
+               f'QueryPlanner.{m.name} stores into the planner ({what}) while it plans one statement, and from_query does not reset `self.{a}` before it plans the next '
+               f'(reset there: {sorted(resets)}): a planner that is used again - every prepared statement is planned that way - plans the next statement with what the '
+               f'previous one left behind (a step that reads a result of the other plan)', file=QP, line=node.lineno,
+               witness="p.from_query(<with c as (...) select ...>); p.from_query(<select * from c join proj.model>) differs from the plan of a fresh planner")
+    ctx.setcount('planner_state_writes', n)
+    ctx.setcount('planner_entry_resets', len(resets))
+    ctx.ob(rule, 'all', True, '')
+
+
 PRINTERISH = {'to_tree', 'to_string', 'get_string', '__repr__', '__str__', '__eq__', '__ne__', 'render', 'to_value'}
 PROCESS_SOURCES = {'random.random', 'random.randint', 'random.choice', 'random.shuffle', 'uuid.uuid4', 'uuid.uuid1', 'os.getpid', 'time.time', 'time.time_ns',
                    'time.monotonic', 'datetime.now', 'datetime.datetime.now', 'dt.datetime.now', 'datetime.utcnow', 'datetime.datetime.utcnow', 'date.today',
@@ -920,6 +952,9 @@ def run(ctx):
     check_hash_order(ctx)
     check_library_state(ctx)
     check_instance_state(ctx)
+    check_planner_reuse(ctx)
+    ctx.floor('planner_state_writes', 1)
+    ctx.floor('planner_entry_resets', 1)
     check_process_dependent(ctx)
     ctx.floor('process_dependence_files', 60)
     ctx.floor('renderer_methods', 20)
